@@ -46,8 +46,8 @@ Lemma reg_shape_datetime reg : reg_shape reg -> exists b, lookup TDatetime reg =
 Proof. intros [b ->]. exists b. reflexivity. Qed.
 
 (** ---------- the registry keeps its shape under every atomic step (no hypothesis on fmt) ---------- *)
-Lemma step_reg_shape rereg fmt st th :
-  reg_shape (registry st) -> reg_shape (registry (fst (step rereg fmt st th))).
+Lemma step_reg_shape rereg rebinds fmt st th :
+  reg_shape (registry st) -> reg_shape (registry (fst (step rereg rebinds fmt st th))).
 Proof.
   intros H. unfold step. destruct (pc th); cbn [fst registry cache_clear cache_store]; auto.
   destruct (todo th) as [|[i reaches|c v|] r]; cbn [fst]; auto.
@@ -55,16 +55,16 @@ Proof.
   - destruct (lookup (vty v) (cache st)); cbn [fst]; auto.
 Qed.
 
-Lemma sched_step_reg_shape rereg fmt cfg k :
-  reg_shape (registry (fst cfg)) -> reg_shape (registry (fst (sched_step rereg fmt cfg k))).
+Lemma sched_step_reg_shape rereg rebinds fmt cfg k :
+  reg_shape (registry (fst cfg)) -> reg_shape (registry (fst (sched_step rereg rebinds fmt cfg k))).
 Proof.
   intros H. unfold sched_step. destruct (nth_error (snd cfg) k) as [th|]; auto.
-  pose proof (step_reg_shape rereg fmt (fst cfg) th H) as S.
-  destruct (step rereg fmt (fst cfg) th). exact S.
+  pose proof (step_reg_shape rereg rebinds fmt (fst cfg) th H) as S.
+  destruct (step rereg rebinds fmt (fst cfg) th). exact S.
 Qed.
 
-Lemma run_schedule_reg_shape rereg fmt sched : forall cfg,
-  reg_shape (registry (fst cfg)) -> reg_shape (registry (fst (run_schedule rereg fmt cfg sched))).
+Lemma run_schedule_reg_shape rereg rebinds fmt sched : forall cfg,
+  reg_shape (registry (fst cfg)) -> reg_shape (registry (fst (run_schedule rereg rebinds fmt cfg sched))).
 Proof.
   unfold run_schedule. induction sched as [|k r IH]; intros cfg H; cbn [fold_left]; auto.
   apply IH. apply sched_step_reg_shape. exact H.
@@ -73,8 +73,8 @@ Qed.
 Lemma dispatch_registry st t : registry (snd (dispatch st t)) = registry st.
 Proof. unfold dispatch. destruct (lookup t (cache st)); reflexivity. Qed.
 
-Lemma run_op_reg_shape rereg fmt st o :
-  reg_shape (registry st) -> reg_shape (registry (fst (run_op rereg fmt st o))).
+Lemma run_op_reg_shape rereg rebinds fmt st o :
+  reg_shape (registry st) -> reg_shape (registry (fst (run_op rereg rebinds fmt st o))).
 Proof.
   intros H. destruct o as [i reaches|c v|]; cbn [run_op]; auto.
   - destruct (rereg && reaches); cbn [fst register cache_clear reg_set registry]; auto using reg_shape_set.
@@ -82,45 +82,48 @@ Proof.
     cbn [fst snd] in *. rewrite D. exact H.
 Qed.
 
-Lemma run_ops_reg_shape rereg fmt ops : forall st,
-  reg_shape (registry st) -> reg_shape (registry (fst (run_ops rereg fmt st ops))).
+Lemma run_ops_reg_shape rereg rebinds fmt ops : forall st,
+  reg_shape (registry st) -> reg_shape (registry (fst (run_ops rereg rebinds fmt st ops))).
 Proof.
   induction ops as [|o r IH]; intros st H; cbn [run_ops fst]; auto.
-  pose proof (run_op_reg_shape rereg fmt st o H) as H1.
-  destruct (run_op rereg fmt st o) as [st1 out]. cbn [fst] in H1.
-  specialize (IH st1 H1). destruct (run_ops rereg fmt st1 r) as [st2 outs]. exact IH.
+  pose proof (run_op_reg_shape rereg rebinds fmt st o H) as H1.
+  destruct (run_op rereg rebinds fmt st o) as [st1 out]. cbn [fst] in H1.
+  specialize (IH st1 H1). destruct (run_ops rereg rebinds fmt st1 r) as [st2 outs]. exact IH.
 Qed.
 
-Theorem registry_keys_constant_thm : forall rereg fmt,
-  (forall ops, map fst (registry (fst (run_ops rereg fmt init_state ops))) = map fst (registry init_state))
+Theorem registry_keys_constant_thm : forall rereg rebinds fmt,
+  (forall ops, map fst (registry (fst (run_ops rereg rebinds fmt init_state ops))) = map fst (registry init_state))
   /\ (forall progs sched,
-        map fst (registry (fst (run_schedule rereg fmt (init_state, map new_thread progs) sched)))
+        map fst (registry (fst (run_schedule rereg rebinds fmt (init_state, map new_thread progs) sched)))
         = map fst (registry init_state)).
 Proof.
-  intros rereg fmt. split.
+  intros rereg rebinds fmt. split.
   - intros ops. apply reg_shape_keys, run_ops_reg_shape, reg_shape_init.
   - intros progs sched. apply reg_shape_keys, run_schedule_reg_shape. exact reg_shape_init.
 Qed.
 
 (** ---------- semantics ---------- *)
 Section Semantics.
-  Variable rereg : bool.
+  Variables rereg rebinds : bool.
   Variable fmt : inst -> pyval -> result text.
-  Hypothesis fmt_self_irrelevant : forall i j v, fmt i v = fmt j v.
+  (** either the interpreter rebinds a registered bound method to the calling instance, or what the handler
+      computes does not depend on the instance it runs with *)
+  Hypothesis self_irrelevant : rebinds = true \/ forall i j v, fmt i v = fmt j v.
 
   (** the handler answers like the one the import-time state dispatches to *)
   Definition good (t : ty) (h : handler) : Prop :=
-    forall c v, sem fmt h c v = sem fmt (fst (dispatch init_state t)) c v.
+    forall c v, sem rebinds fmt h c v = sem rebinds fmt (fst (dispatch init_state t)) c v.
   Definition cache_good (c : list (ty * handler)) : Prop := forall t h, lookup t c = Some h -> good t h.
   Definition inv (st : state) : Prop := reg_shape (registry st) /\ cache_good (cache st).
 
   Lemma search_good reg t : reg_shape reg -> good t (search reg t).
   Proof.
     intros [b ->] c v. destruct t; cbv [search lookup find_impl mro ty_eqb ty_code N.eqb Pos.eqb dispatch init_state cache registry fst];
-      try reflexivity; cbn [sem]; destruct b as [i|]; try reflexivity; rewrite (fmt_self_irrelevant i c); reflexivity.
+      try reflexivity; cbn [sem]; destruct b as [i|]; try reflexivity;
+      (destruct self_irrelevant as [R | E]; [rewrite R; reflexivity | rewrite (E (if rebinds then c else i) c); reflexivity]).
   Qed.
 
-  Lemma good_spec t h c v : good t h -> vty v = t -> sem fmt h c v = spec_unconvert fmt c v.
+  Lemma good_spec t h c v : good t h -> vty v = t -> sem rebinds fmt h c v = spec_unconvert fmt c v.
   Proof.
     intros G E. rewrite G. unfold spec_unconvert. rewrite E.
     destruct t; try reflexivity.
@@ -151,8 +154,8 @@ Section Semantics.
   Qed.
 
   Lemma run_op_inv st o : inv st ->
-    inv (fst (run_op rereg fmt st o))
-    /\ snd (run_op rereg fmt st o) = match o with Unconvert c v => Some (spec_unconvert fmt c v) | _ => None end.
+    inv (fst (run_op rereg rebinds fmt st o))
+    /\ snd (run_op rereg rebinds fmt st o) = match o with Unconvert c v => Some (spec_unconvert fmt c v) | _ => None end.
   Proof.
     intros I. destruct o as [i reaches|c v|]; cbn [run_op].
     - destruct (rereg && reaches); cbn [fst snd]; split; auto. apply inv_cache_clear, inv_reg_set, I.
@@ -162,24 +165,24 @@ Section Semantics.
   Qed.
 
   Lemma run_ops_inv ops : forall st, inv st ->
-    inv (fst (run_ops rereg fmt st ops)) /\ snd (run_ops rereg fmt st ops) = spec_outcomes fmt ops.
+    inv (fst (run_ops rereg rebinds fmt st ops)) /\ snd (run_ops rereg rebinds fmt st ops) = spec_outcomes fmt ops.
   Proof.
     induction ops as [|o r IH]; intros st I; cbn [run_ops spec_outcomes fst snd]; [auto|].
-    destruct (run_op_inv st o I) as [I1 O1]. destruct (run_op rereg fmt st o) as [st1 out]. cbn [fst snd] in *.
-    destruct (IH st1 I1) as [I2 O2]. destruct (run_ops rereg fmt st1 r) as [st2 outs]. cbn [fst snd] in *.
+    destruct (run_op_inv st o I) as [I1 O1]. destruct (run_op rereg rebinds fmt st o) as [st1 out]. cbn [fst snd] in *.
+    destruct (IH st1 I1) as [I2 O2]. destruct (run_ops rereg rebinds fmt st1 r) as [st2 outs]. cbn [fst snd] in *.
     split; [exact I2|]. subst out outs. destruct o; reflexivity.
   Qed.
 
   Theorem dispatch_history_independent_sec : forall ops t caller v,
-    sem fmt (fst (dispatch (fst (run_ops rereg fmt init_state ops)) t)) caller v
-    = sem fmt (fst (dispatch init_state t)) caller v.
+    sem rebinds fmt (fst (dispatch (fst (run_ops rereg rebinds fmt init_state ops)) t)) caller v
+    = sem rebinds fmt (fst (dispatch init_state t)) caller v.
   Proof.
     intros ops t caller v. destruct (run_ops_inv ops init_state inv_init) as [I _].
     destruct (dispatch_inv _ t I) as [G _]. apply G.
   Qed.
 
   Theorem model_functions_total_on_inputs_sec : forall hist ops,
-    snd (run_ops rereg fmt (fst (run_ops rereg fmt init_state hist)) ops) = spec_outcomes fmt ops.
+    snd (run_ops rereg rebinds fmt (fst (run_ops rereg rebinds fmt init_state hist)) ops) = spec_outcomes fmt ops.
   Proof.
     intros hist ops. destruct (run_ops_inv hist init_state inv_init) as [I _].
     destruct (run_ops_inv ops _ I) as [_ O]. exact O.
@@ -208,7 +211,7 @@ Section Semantics.
   Proof. repeat split; cbn; auto. Qed.
 
   Lemma step_inv prog st th : inv st -> tinv prog th ->
-    inv (fst (step rereg fmt st th)) /\ tinv prog (snd (step rereg fmt st th)).
+    inv (fst (step rereg rebinds fmt st th)) /\ tinv prog (snd (step rereg rebinds fmt st th)).
   Proof.
     intros I [P [D K]]. unfold step. destruct (pc th) as [| |c v|c v h|c v h] eqn:EP; cbn [pending] in K.
     - destruct (todo th) as [|[i reaches|c v|] r] eqn:ET; cbn [fst snd].
@@ -244,13 +247,13 @@ Section Semantics.
   Definition cfg_inv (progs : list (list op)) (cfg : state * list thread) : Prop :=
     inv (fst cfg) /\ Forall2 tinv progs (snd cfg).
 
-  Lemma sched_step_inv progs cfg k : cfg_inv progs cfg -> cfg_inv progs (sched_step rereg fmt cfg k).
+  Lemma sched_step_inv progs cfg k : cfg_inv progs cfg -> cfg_inv progs (sched_step rereg rebinds fmt cfg k).
   Proof.
     intros [I F]. unfold sched_step. destruct (nth_error (snd cfg) k) as [th|] eqn:N; [|split; assumption].
     assert (S : forall prog, tinv prog th ->
-                  inv (fst (step rereg fmt (fst cfg) th)) /\ tinv prog (snd (step rereg fmt (fst cfg) th)))
+                  inv (fst (step rereg rebinds fmt (fst cfg) th)) /\ tinv prog (snd (step rereg rebinds fmt (fst cfg) th)))
       by (intros prog T; apply step_inv; assumption).
-    destruct (step rereg fmt (fst cfg) th) as [st' th']. cbn [fst snd] in *. split.
+    destruct (step rereg rebinds fmt (fst cfg) th) as [st' th']. cbn [fst snd] in *. split.
     - assert (E : exists prog, nth_error progs k = Some prog /\ tinv prog th).
       { clear S. revert k N. induction F as [|p t lp lt H F IH]; intros k N; [destruct k; discriminate|].
         destruct k as [|k]; cbn [nth_error] in *; [injection N as ->; eauto | eauto]. }
@@ -258,7 +261,7 @@ Section Semantics.
     - apply (Forall2_nth_replace tinv progs (snd cfg) k th th' F N). intros prog _ T. apply (S prog T).
   Qed.
 
-  Lemma run_schedule_inv progs sched : forall cfg, cfg_inv progs cfg -> cfg_inv progs (run_schedule rereg fmt cfg sched).
+  Lemma run_schedule_inv progs sched : forall cfg, cfg_inv progs cfg -> cfg_inv progs (run_schedule rereg rebinds fmt cfg sched).
   Proof.
     unfold run_schedule. induction sched as [|k r IH]; intros cfg H; cbn [fold_left]; auto.
     apply IH, sched_step_inv, H.
@@ -280,12 +283,12 @@ Section Semantics.
   Qed.
 
   Theorem dispatch_interleaving_independent_sec : forall progs sched,
-    let cfg := run_schedule rereg fmt (init_state, map new_thread progs) sched in
+    let cfg := run_schedule rereg rebinds fmt (init_state, map new_thread progs) sched in
     (forall th d, In th (snd cfg) -> In d (done th) ->
-        (forall c v, sem fmt (d_handler d) c v = sem fmt (fst (dispatch init_state (vty (d_val d)))) c v)
+        (forall c v, sem rebinds fmt (d_handler d) c v = sem rebinds fmt (fst (dispatch init_state (vty (d_val d)))) c v)
         /\ d_out d = spec_unconvert fmt (d_caller d) (d_val d))
     /\ (forall t h, lookup t (cache (fst cfg)) = Some h ->
-        forall c v, sem fmt h c v = sem fmt (fst (dispatch init_state t)) c v)
+        forall c v, sem rebinds fmt h c v = sem rebinds fmt (fst (dispatch init_state t)) c v)
     /\ (exists b, lookup TDatetime (registry (fst cfg)) = Some (UnconvDatetime b))
     /\ Forall2 (fun prog th => finished th = true -> map d_out (done th) = spec_outcomes fmt prog) progs (snd cfg).
   Proof.
